@@ -574,8 +574,85 @@ def run_program(w, src: str, plans: Dict[str, ClassPlan], order: List[str], shap
         loaded.unload()
 
 
+FACTORY_SOURCE = '''
+import icontract
+
+
+@icontract.invariant(lambda self: HUB.inv("shape", self))
+class Shape{base}:
+    """No __init__ of its own (its __new__ gets wrapped); __new__ is a factory that may return a subclass instance."""
+
+    def __new__(cls, kind="plain", radius=0):
+        target = cls
+        if cls is Shape and kind == "circle":
+            target = Circle
+        elif cls is Shape and kind == "square":
+            target = Square
+        return object.__new__(target)
+
+    def area(self):
+        return HUB.body("area", {{"self": self}})
+
+
+{deco}
+class Circle(Shape):
+    def __init__(self, kind="circle", radius=1):
+        HUB.log("init-enter", "Circle", {{"self": self}})
+        self.radius = radius
+        HUB.log("init-exit", "Circle", {{"self": self}})
+
+
+class Square(Shape):
+    """A subclass without __init__: complete as soon as __new__ returns."""
+'''
+
+
+def run_factory_new(w) -> None:
+    """__new__ of a class without __init__ acting as a factory for its subclasses (which may have constructors)."""
+    # (only on the contract-inheriting base: invariants on plain subclasses of invariant-carrying classes are a silent zone)
+    for base, deco in (("(icontract.DBC)", '@icontract.invariant(lambda self: HUB.inv("circle", self) and self.radius > 0)'),):
+        loaded = prog.load_source(FACTORY_SOURCE.format(base=base, deco=deco), w.scratch())
+        mod, hub = loaded.module, loaded.hub
+        try:
+            for tag, make, want_cls, want_invs in (
+                    ("factory-returns-subclass-with-init", lambda: mod.Shape("circle", 2), "Circle", ["shape", "circle"]),
+                    ("subclass-constructed-directly", lambda: mod.Circle("circle", 3), "Circle", ["shape", "circle"]),
+                    ("factory-returns-subclass-without-init", lambda: mod.Shape("square"), "Square", ["shape"]),
+                    ("plain-instance", lambda: mod.Shape(), "Shape", ["shape"])):
+                hub.reset()
+                case = {"factory_new": tag, "base": base}
+                w.count("constructions")
+                w.count("factory_new_constructions")
+                w.case(("factory-new", tag, base))
+                try:
+                    obj = make()
+                    outcome = type(obj).__name__
+                except BaseException as err:  # pylint: disable=broad-except
+                    outcome = "raise {}: {}".format(type(err).__name__, str(err)[:120])
+                kinds = [(e.kind, e.id) for e in hub.events]
+                if outcome != want_cls:
+                    w.violation("C03/construction-through-factory-new-fails", "{}: expected an instance of {}, got {}; events {}".format(
+                        tag, want_cls, outcome, kinds), case)
+                    continue
+                invs = [i for k, i in kinds if k == "inv"]
+                if ("init-exit", "Circle") in kinds:
+                    pos = kinds.index(("init-exit", "Circle"))
+                    early = [i for k, i in kinds[:pos] if k == "inv"]
+                    if early:
+                        w.violation("C03/invariant-evaluated-during-construction", "{}: invariants {} were evaluated before __init__ of the returned "
+                                    "object had finished".format(tag, early), case)
+                        continue
+                if invs != want_invs:
+                    w.violation("C03/invariants-after-construction-differ", "{}: after the construction the invariants {} were evaluated, expected {}".format(
+                        tag, invs, want_invs), case)
+        finally:
+            loaded.unload()
+
+
 def run(w) -> None:
     rng = w.rng
+    if w.shard == 0:
+        run_factory_new(w)
     n = 12000 if w.tier == "thorough" else 1200
     flavours = ["plain", "plain", "plain", "slots", "dataclass", "frozen", "own-new", "namedtuple"]
     for i in range(n):
@@ -598,6 +675,9 @@ def run(w) -> None:
 
 
 def replay(case, w) -> None:
+    if "factory_new" in case:
+        run_factory_new(w)
+        return
     plans = plans_from_json(case["plans"])
     oracle = Oracle(plans)
     loaded = prog.load_source(case["source"], w.scratch())
